@@ -26,7 +26,7 @@ template <class R, class T> static void explore(const Api<R, T> &api, int type, 
     Model m0; m0.cap = cap;
     nodes.push_back(new Node{Ring<R, T>(api, cap), m0, -1, Op{0, 0}, false});
     seen[key(nodes[0]->ring, m0)] = 0;
-    std::vector<Op> alpha = {{PUT, type == 3 ? 7 : 1}, {PUT, type == 3 ? 20 : 2}, {GET, 0}, {CLEAR, 0}, {OVR_ON, 0}, {OVR_OFF, 0}};   // the double ring is explored with the two zeros (-0.0, +0.0): equal as numbers, different as elements
+    std::vector<Op> alpha = {{PUT, type == 3 ? 7 : 1}, {PUT, type == 3 ? 20 : 2}, {GET, 0}, {CLEAR, 0}, {OVR_ON, 0}, {OVR_ON, 2}, {OVR_OFF, 0}};   // the double ring is explored with the two zeros (-0.0, +0.0): equal as numbers, different as elements
     uint64_t states = 1, transitions = 0;
     for (size_t i = 0; i < nodes.size() && !vp::too_many_failures(); i++) {
         for (const Op &op : alpha) {
